@@ -12,9 +12,15 @@ package jerr
 //@ pred isNL(b byte) = b == '\n' || b == '\r'
 //@ pred clampPos(content []byte, position int) = position < len(content) ? position : len(content) - 1
 
+// nlSym(content): the line-end byte of a file (the last byte of its first run of line-end bytes, LF if there is none);
+// defined by DetectNewLineSymbol, whose verified clauses follow
+//@ specfn nlSym(content []byte) byte
+//@ pred LineIs(content []byte, nl byte, i int, line int) = (len(content) == 0 ==> line == 1)
+//@     && (len(content) > 0 ==> line == 1 + cntNL(content, nl, clampPos(content, i) + 1) - ((i < len(content) && content[i] == nl) ? 1 : 0))
 //@ func DetectNewLineSymbol
 //@   tag C02
 //@   pure
+//@   ghostensures ret == nlSym(content)
 //@   ensures isNL(ret)
 //@   ensures (forall k :: 0 <= k && k < len(content) ==> !isNL(content[k])) ==> ret == '\n'
 //@   ensures ret == '\n' || (exists e :: 0 <= e && e < len(content) && content[e] == ret)
@@ -71,8 +77,7 @@ package jerr
 //@   pure
 //@   requires f != nil && i <= len(f.content)
 //@   ensures ret.file == f && ret.index == i && len(ret.quote) <= 200
-//@   ensures exists nl byte :: isNL(nl) && (len(f.content) == 0 ==> ret.line == 1)
-//@             && (len(f.content) > 0 ==> ret.line == 1 + cntNL(f.content, nl, clampPos(f.content, i) + 1) - ((i < len(f.content) && f.content[i] == nl) ? 1 : 0))
+//@   ensures isNL(nlSym(f.content)) && LineIs(f.content, nlSym(f.content), i, ret.line)
 
 //@ func NewJApiError
 //@   tag C02
@@ -86,4 +91,5 @@ package jerr
 //@   modifies e.includeTrace
 //@   ensures len(e.includeTrace) == old(len(e.includeTrace)) + 1
 //@   ensures e.includeTrace[len(e.includeTrace)-1].path == f.name
+//@   ensures LineIs(f.content, nlSym(f.content), atByte, e.includeTrace[len(e.includeTrace)-1].atLine)
 //@   ensures forall k :: 0 <= k && k < old(len(e.includeTrace)) ==> e.includeTrace[k] == old(e.includeTrace[k])
